@@ -1,5 +1,5 @@
 import ast
-from typing import Union
+from typing import Any, Union
 
 from graphql import (
     GraphQLArgument,
@@ -28,6 +28,7 @@ from ..codegen import (
     generate_dict,
     generate_keyword,
     generate_lambda,
+    generate_list,
     generate_name,
 )
 from ..exceptions import NotSupported
@@ -103,6 +104,20 @@ def generate_field_type(
     raise NotSupported(f"Unknown field type: {type(type_)}")
 
 
+def generate_default_value(value: Any) -> ast.expr:
+    """Lists and dicts are emitted as displays, not as one repr()-ed constant:
+    repr() writes a non-finite float as the bare name `inf`, which is undefined
+    in the generated module; ast.unparse handles it for float constants."""
+    if isinstance(value, list):
+        return generate_list(elements=[generate_default_value(v) for v in value])
+    if isinstance(value, dict):
+        return generate_dict(
+            keys=[generate_constant(k) for k in value],
+            values=[generate_default_value(v) for v in value.values()],
+        )
+    return generate_constant(value)
+
+
 def generate_args(args: GraphQLArgumentMap, type_map_name: str) -> ast.Dict:
     args_dict = generate_dict()
     for name, arg in args.items():
@@ -117,7 +132,7 @@ def generate_arg(arg: GraphQLArgument, type_map_name: str) -> ast.Call:
         args=[generate_field_type(arg.type, type_map_name)],
         keywords=[
             generate_keyword(
-                value=generate_constant(arg.default_value), arg="default_value"
+                value=generate_default_value(arg.default_value), arg="default_value"
             ),
             generate_keyword(
                 value=generate_constant(arg.description),
@@ -179,7 +194,8 @@ def generate_input_field(
         args=[generate_field_type(input_field.type, type_map_name)],
         keywords=[
             generate_keyword(
-                value=generate_constant(input_field.default_value), arg="default_value"
+                value=generate_default_value(input_field.default_value),
+                arg="default_value",
             ),
             generate_keyword(
                 value=generate_constant(input_field.description), arg="description"
